@@ -90,6 +90,8 @@ def handleConvS (strict : Bool) (op : String) (args impl : List String) : Verdic
     let ops := opsTok.splitOn ","
     match impl with
     | ["OPENERR"] => .unmodelled       -- the generated source was not readable: nothing to convert (reader fidelity is C01–C06)
+    | ["OPENERR", "READABLE"] =>
+      .disagree false "the file API refused a source that the reader of its format accepts (codec selection by extension)"
     | "SRC" :: rest =>
       match decSubs rest with
       | none => .bad "conv.pair SRC"
